@@ -432,7 +432,14 @@ uint32_t IPv6::calculate_headers_size() const {
 }
 
 void IPv6::write_header(const ext_header& header, OutputMemoryStream& stream) {
-    const uint8_t length = header.length_field() / 8;
+    uint8_t length = header.length_field() / 8;
+    // Unless the length was spoofed, announce what is actually written:
+    // type + length + data + padding, in 8 octet units, not counting the first
+    if (header.length_field() == header.data_size()) {
+        length = static_cast<uint8_t>(
+            (header.data_size() + sizeof(uint8_t) * 2 + get_padding_size(header)) / 8 - 1
+        );
+    }
     stream.write(header.option());
     stream.write(length);
     stream.write(header.data_ptr(), header.data_size());
